@@ -13,8 +13,17 @@ for d in sorted(glob.glob('/verif/seeded/C*-m*')):
     obl = ', '.join(sorted(set(re.sub(r'#\d+$', '', o).split(':')[0] + ':' + ':'.join(o.split(':')[1:2]) for o in det.get('obligations', [])))[:4])
     st = 'pending'
     if conf.get('demo_with_change'):
-        ok = conf.get('demo_with_change', '').startswith('FAIL') and conf.get('demo_without_change', '').startswith('PASS') and conf.get('suite_still_failing', 'none') == 'none' and ('suite_exit' in conf)
-        st = 'confirmed' if ok else 'partial: ' + ', '.join(f"{k}={v}" for k, v in conf.items() if k in ('demo_with_change', 'demo_without_change', 'suite_still_failing', 'suite_exit'))
+        demo_ok = conf.get('demo_with_change', '').startswith('FAIL') and conf.get('demo_without_change', '').startswith('PASS')
+        suite_done = 'suite_exit' in conf
+        suite_ok = suite_done and conf.get('suite_still_failing', 'none') == 'none'
+        if demo_ok and suite_ok:
+            st = 'confirmed here: builds, demo fails with / passes without, whole suite passes with the change'
+            if conf.get('suite_rerun_alone'):
+                st += ' (' + conf['suite_rerun_alone'].replace('./', '') + ' re-run alone: load)'
+        elif demo_ok and not suite_done:
+            st = 'demo confirmed here (fails with / passes without); suite with the change: run by the seeding agent only (AGENT_README.md)'
+        else:
+            st = 'incomplete: ' + ', '.join(f"{k}={v}" for k, v in conf.items() if k in ('demo_with_change', 'demo_without_change', 'suite_still_failing', 'suite_exit'))
     hist = m.get('history', '')
     rows.append(f"| {m['id']} | {m['breaks'][:150].replace('|','/')} | {own} ({', '.join(det.get('detected_by', []))}) | {obl} | {hist} | {st} |")
 tab = "| change | what it does | own check detects (all that do) | obligations (first few) | first seen | confirmation |\n|---|---|---|---|---|---|\n" + "\n".join(rows)
